@@ -396,13 +396,15 @@ mod blocks {
         }
         fn from_interpolation_6(interpolation: u16) -> Self {
             debug_assert!(interpolation <= 1785);
-            const F: f32 = 1.0 / 1785.0;
-            interpolation as f32 * F
+            // a division, because multiplying with the rounded reciprocal is
+            // not correctly rounded for all interpolations
+            interpolation as f32 / 1785.0
         }
         fn from_interpolation_4(interpolation: u16) -> Self {
             debug_assert!(interpolation <= 1275);
-            const F: f32 = 1.0 / 1275.0;
-            interpolation as f32 * F
+            // a division, because multiplying with the rounded reciprocal is
+            // not correctly rounded for all interpolations
+            interpolation as f32 / 1275.0
         }
     }
     pub(crate) fn bc4u_gray<T: BC4uOperations>(block_bytes: [u8; 8]) -> [[T; 1]; 16] {
@@ -492,13 +494,15 @@ mod blocks {
         }
         fn from_interpolation_6(interpolation: u16) -> Self {
             debug_assert!(interpolation <= 1778);
-            const C: f32 = 1.0 / 1778.0;
-            interpolation as f32 * C
+            // a division, because multiplying with the rounded reciprocal is
+            // not correctly rounded for all interpolations
+            interpolation as f32 / 1778.0
         }
         fn from_interpolation_4(interpolation: u16) -> Self {
             debug_assert!(interpolation <= 1270);
-            const C: f32 = 1.0 / 1270.0;
-            interpolation as f32 * C
+            // a division, because multiplying with the rounded reciprocal is
+            // not correctly rounded for all interpolations
+            interpolation as f32 / 1270.0
         }
     }
     pub(crate) fn bc4s_gray<T: BC4sOperations>(block_bytes: [u8; 8]) -> [[T; 1]; 16] {
